@@ -60,9 +60,10 @@ def _run_job(job):
     return res
 
 
-def run(prop, tier, ev, module, jobs, *, nproc=14, native_replay=None, describe=None):
-    """jobs: list of dict(params=..., [scenario=..]).  Returns exit code."""
-    work = C.WorkDir(f"mirse-{prop}")
+def run(prop, tier, ev, module, jobs, *, nproc=14, native_replay=None, describe=None, only_labels=None, work_key=None):
+    """jobs: list of dict(params=..., [scenario=..]).  only_labels: tuple of label prefixes judged for this property
+    (a scenario shared between properties labels each obligation with the property it belongs to). Returns exit code."""
+    work = C.WorkDir(work_key or f"mirse-{prop}")
     try:
         mir, src_root, mir_s = DP.dump_mir(work)
         if not mir:
@@ -92,6 +93,8 @@ def run(prop, tier, ev, module, jobs, *, nproc=14, native_replay=None, describe=
             if r["error"]:
                 errors.append(r)
             for v in r["violations"]:
+                if only_labels and not v["label"].startswith(tuple(only_labels)):
+                    continue
                 by_label.setdefault(v["label"], []).append((r["job"], v))
             if not r["error"] and not r["violations"]:
                 ev.add_sample(dict(scenario=r["job"].get("scenario", "scenario"), params=r["job"]["params"], paths=st["paths"],
